@@ -710,4 +710,216 @@ example : (match ntske_ServerCookie_Decode { Algo := 0, S2C := [], C2S := [] }
 example : (match ntske_ServerCookie_Decode { Algo := 0, S2C := [], C2S := [] } [1, 1, 0] 4 with
     | .ok (_, e) => some e | _ => none) = some true := by decide +kernel
 
+/-! ### `(*EncryptedServerCookie).Decode` -/
+
+abbrev EcSt := S_EncryptedServerCookie × Bool × Bool × Bool × Int64   -- (c, ciphertext, id, nonce, pos)
+
+/-- the loop body of the generated `(*EncryptedServerCookie).Decode`, verbatim -/
+def ecBody (b : List UInt8) : EcSt → Go.Ctl EcSt (Go.Out (S_EncryptedServerCookie × Bool)) :=
+  fun (c, ciphertext, id, nonce, pos) =>
+      if (!(decide (pos < (Go.len b)))) then
+        Go.Ctl.brk (c, ciphertext, id, nonce, pos)
+      else
+        if (decide (((Go.len b) - pos) < (4 : Int64))) then
+          Go.Ctl.ret (Go.Out.ok ((c, true)))
+        else
+          Go.Ctl.bindR (Go.Out.ofOption "slice" (Go.beU16At? b pos)) fun _u1 =>
+          let t : UInt16 := _u1
+          Go.Ctl.bindR (Go.Out.ofOption "slice" (Go.beU16At? b (pos + (2 : Int64)))) fun _u2 =>
+          let l : UInt16 := _u2
+          if (decide (((l).toUInt64.toInt64) > (((Go.len b) - pos) - (4 : Int64)))) then
+            Go.Ctl.ret (Go.Out.ok ((c, true)))
+          else
+            if (t == (1025 : UInt16)) then
+              if (decide (l < (2 : UInt16))) then
+                Go.Ctl.ret (Go.Out.ok ((c, true)))
+              else
+                Go.Ctl.bindR (Go.Out.ofOption "slice" (Go.beU16At? b (pos + (4 : Int64)))) fun _u3 =>
+                let c : S_EncryptedServerCookie := { c with ID := _u3 }
+                let id : Bool := true
+                let pos : Int64 := (pos + ((4 : Int64) + ((l).toUInt64.toInt64)))
+                Go.Ctl.next (c, ciphertext, id, nonce, pos)
+            else
+              Go.Ctl.bindR (if (t == (1281 : UInt16)) then
+                  ((Go.Out.ofOption "slice" (Go.subslice? b (pos + (4 : Int64)) ((pos + (4 : Int64)) + ((l).toUInt64.toInt64))))).bind fun _s7 =>
+                  let c : S_EncryptedServerCookie := { c with Nonce := _s7 }
+                  let nonce : Bool := true
+                  Go.Out.ok ((c, ciphertext, nonce))
+                else
+                  ((if (t == (1537 : UInt16)) then
+                      ((Go.Out.ofOption "slice" (Go.subslice? b (pos + (4 : Int64)) ((pos + (4 : Int64)) + ((l).toUInt64.toInt64))))).bind fun _s9 =>
+                      let c : S_EncryptedServerCookie := { c with Ciphertext := _s9 }
+                      let ciphertext : Bool := true
+                      Go.Out.ok ((c, ciphertext))
+                    else
+                      Go.Out.ok ((c, ciphertext)))).bind fun (c, ciphertext) =>
+                  Go.Out.ok ((c, ciphertext, nonce))) fun (c, ciphertext, nonce) =>
+              let pos : Int64 := (pos + ((4 : Int64) + ((l).toUInt64.toInt64)))
+              Go.Ctl.next (c, ciphertext, id, nonce, pos)
+
+/-- the generated function is its loop followed by the two final tests (definitional: re-checked
+    against the regenerated definition on every run) -/
+theorem ec_pieces (c : S_EncryptedServerCookie) (b : List UInt8) (fuel : Nat) :
+    ntske_EncryptedServerCookie_Decode c b fuel =
+      (match Go.forFuel (ρ := Go.Out (S_EncryptedServerCookie × Bool)) fuel (c, false, false, false, (0 : Int64)) (ecBody b) with
+       | none => Go.Out.stuck
+       | some (.inr _r) => _r
+       | some (.inl (c, ciphertext, id, nonce, pos)) =>
+         if (pos != (Go.len b)) then Go.Out.ok ((c, true))
+         else if (!((id && nonce) && ciphertext)) then Go.Out.ok ((c, true))
+         else Go.Out.ok ((c, false))) := rfl
+
+def ecView : View EcSt where
+  pos := fun (_, _, _, _, pos) => pos
+  acc := fun (c, ciphertext, id, nonce, _) =>
+    { num := if id then some c.ID.toNat else none,
+      x := if nonce then some (bytesN c.Nonce) else none,
+      y := if ciphertext then some (bytesN c.Ciphertext) else none }
+  setPos := fun (c, ciphertext, id, nonce, _) nx => (c, ciphertext, id, nonce, nx)
+  onNum := fun (c, ciphertext, _, nonce, _) v nx => ({ c with ID := v }, ciphertext, true, nonce, nx)
+  onX := fun (c, ciphertext, id, _, _) x nx => ({ c with Nonce := x }, ciphertext, id, true, nx)
+  onY := fun (c, _, id, nonce, _) y nx => ({ c with Ciphertext := y }, true, id, nonce, nx)
+
+theorem ecView_lawful : ecView.Lawful := by
+  constructor <;> intros <;> rfl
+
+theorem ecPos (c : S_EncryptedServerCookie) (ciphertext id nonce : Bool) (pos : Int64) :
+    ecView.pos (c, ciphertext, id, nonce, pos) = pos := rfl
+theorem ecSetPos (c : S_EncryptedServerCookie) (ciphertext id nonce : Bool) (pos : Int64) (nx : Int64) :
+    ecView.setPos (c, ciphertext, id, nonce, pos) nx = (c, ciphertext, id, nonce, nx) := rfl
+theorem ecOnNum (c : S_EncryptedServerCookie) (ciphertext id nonce : Bool) (pos : Int64) (v : UInt16) (nx : Int64) :
+    ecView.onNum (c, ciphertext, id, nonce, pos) v nx = ({ c with ID := v }, ciphertext, true, nonce, nx) := rfl
+theorem ecOnX (c : S_EncryptedServerCookie) (ciphertext id nonce : Bool) (pos : Int64) (x : List UInt8) (nx : Int64) :
+    ecView.onX (c, ciphertext, id, nonce, pos) x nx = ({ c with Nonce := x }, ciphertext, id, true, nx) := rfl
+theorem ecOnY (c : S_EncryptedServerCookie) (ciphertext id nonce : Bool) (pos : Int64) (y : List UInt8) (nx : Int64) :
+    ecView.onY (c, ciphertext, id, nonce, pos) y nx = ({ c with Ciphertext := y }, true, id, nonce, nx) := rfl
+
+theorem ecBody_eq (b : List UInt8) :
+    ecBody b = bodyOf ecView 1025 1281 1537 b (fun s => Go.Out.ok (s.1, true)) := by
+  funext ⟨c, ciphertext, id, nonce, pos⟩
+  show ecBody b (c, ciphertext, id, nonce, pos) =
+    contOf ecView (fun s => Go.Out.ok (s.1, true)) (c, ciphertext, id, nonce, pos) (stepAt 1025 1281 1537 b pos)
+  by_cases h1 : decide (pos < Go.len b) = true
+  · by_cases h2 : decide (Go.len b - pos < 4) = true
+    · have hs : stepAt 1025 1281 1537 b pos = .ok .err := by simp [stepAt, h1, h2]
+      rw [hs]; simp [ecBody, h1, h2, contOf]
+    · cases ht : Go.beU16At? b pos with
+      | none =>
+        have hs : stepAt 1025 1281 1537 b pos = .panic "slice" := by
+          simp [stepAt, h1, h2, ht, Go.Out.ofOption, Go.Out.bind]
+        rw [hs]; simp [ecBody, h1, h2, ht, Go.Out.ofOption, Go.Ctl.bindR, contOf]
+      | some t =>
+        cases hl : Go.beU16At? b (pos + 2) with
+        | none =>
+          have hs : stepAt 1025 1281 1537 b pos = .panic "slice" := by
+            simp [stepAt, h1, h2, ht, hl, Go.Out.ofOption, Go.Out.bind]
+          rw [hs]; simp [ecBody, h1, h2, ht, hl, Go.Out.ofOption, Go.Ctl.bindR, contOf]
+        | some l =>
+          by_cases h3 : decide (l.toUInt64.toInt64 > Go.len b - pos - 4) = true
+          · have hs : stepAt 1025 1281 1537 b pos = .ok .err := by
+              simp [stepAt, h1, h2, ht, hl, h3, Go.Out.ofOption, Go.Out.bind]
+            rw [hs]; simp [ecBody, h1, h2, ht, hl, h3, Go.Out.ofOption, Go.Ctl.bindR, contOf]
+          · by_cases c0 : (t == (1025 : UInt16)) = true
+            · by_cases c2 : decide (l < (2 : UInt16)) = true
+              · have hs : stepAt 1025 1281 1537 b pos = .ok .err := by
+                  simp [stepAt, h1, h2, ht, hl, h3, c0, c2, Go.Out.ofOption, Go.Out.bind]
+                rw [hs]; simp [ecBody, h1, h2, ht, hl, h3, c0, c2, Go.Out.ofOption, Go.Ctl.bindR, contOf]
+              · cases hv : Go.beU16At? b (pos + 4) with
+                | none =>
+                  have hs : stepAt 1025 1281 1537 b pos = .panic "slice" := by
+                    simp [stepAt, h1, h2, ht, hl, h3, c0, c2, hv, Go.Out.ofOption, Go.Out.bind]
+                  rw [hs]; simp [ecBody, h1, h2, ht, hl, h3, c0, c2, hv, Go.Out.ofOption, Go.Ctl.bindR, contOf]
+                | some v =>
+                  have hs : stepAt 1025 1281 1537 b pos = .ok (.num v (pos + (4 + l.toUInt64.toInt64))) := by
+                    simp [stepAt, h1, h2, ht, hl, h3, c0, c2, hv, Go.Out.ofOption, Go.Out.bind]
+                  rw [hs]; simp [ecBody, h1, h2, ht, hl, h3, c0, c2, hv, Go.Out.ofOption, Go.Ctl.bindR, contOf, ecOnNum]
+            · by_cases c1 : (t == (1281 : UInt16)) = true
+              · cases hsl : Go.subslice? b (pos + 4) (pos + 4 + l.toUInt64.toInt64) with
+                | none =>
+                  have hs : stepAt 1025 1281 1537 b pos = .panic "slice" := by
+                    simp [stepAt, h1, h2, ht, hl, h3, c0, c1, hsl, Go.Out.ofOption, Go.Out.bind]
+                  rw [hs]; simp [ecBody, h1, h2, ht, hl, h3, c0, c1, hsl, Go.Out.ofOption, Go.Out.bind, Go.Ctl.bindR, contOf]
+                | some x =>
+                  have hs : stepAt 1025 1281 1537 b pos = .ok (.fx x (pos + (4 + l.toUInt64.toInt64))) := by
+                    simp [stepAt, h1, h2, ht, hl, h3, c0, c1, hsl, Go.Out.ofOption, Go.Out.bind]
+                  rw [hs]; simp [ecBody, h1, h2, ht, hl, h3, c0, c1, hsl, Go.Out.ofOption, Go.Out.bind, Go.Ctl.bindR, contOf, ecOnX]
+              · by_cases c2 : (t == (1537 : UInt16)) = true
+                · cases hsl : Go.subslice? b (pos + 4) (pos + 4 + l.toUInt64.toInt64) with
+                  | none =>
+                    have hs : stepAt 1025 1281 1537 b pos = .panic "slice" := by
+                      simp [stepAt, h1, h2, ht, hl, h3, c0, c1, c2, hsl, Go.Out.ofOption, Go.Out.bind]
+                    rw [hs]; simp [ecBody, h1, h2, ht, hl, h3, c0, c1, c2, hsl, Go.Out.ofOption, Go.Out.bind, Go.Ctl.bindR, contOf]
+                  | some y =>
+                    have hs : stepAt 1025 1281 1537 b pos = .ok (.fy y (pos + (4 + l.toUInt64.toInt64))) := by
+                      simp [stepAt, h1, h2, ht, hl, h3, c0, c1, c2, hsl, Go.Out.ofOption, Go.Out.bind]
+                    rw [hs]; simp [ecBody, h1, h2, ht, hl, h3, c0, c1, c2, hsl, Go.Out.ofOption, Go.Out.bind, Go.Ctl.bindR, contOf, ecOnY]
+                · have hs : stepAt 1025 1281 1537 b pos = .ok (.skip (pos + (4 + l.toUInt64.toInt64))) := by
+                    simp [stepAt, h1, h2, ht, hl, h3, c0, c1, c2, Go.Out.ofOption, Go.Out.bind]
+                  rw [hs]; simp [ecBody, h1, h2, ht, hl, h3, c0, c1, c2, Go.Out.ofOption, Go.Out.bind, Go.Ctl.bindR, contOf, ecSetPos]
+  · have hs : stepAt 1025 1281 1537 b pos = .ok .stop := by simp [stepAt, h1]
+    rw [hs]; simp [ecBody, h1, contOf]
+
+theorem k1025 : (1025 : UInt16).toNat = cookieTypeKeyID := rfl
+theorem k1281 : (1281 : UInt16).toNat = cookieTypeNonce := rfl
+theorem k1537 : (1537 : UInt16).toNat = cookieTypeCiphertext := rfl
+
+/-- **`(*EncryptedServerCookie).Decode`, for every buffer shorter than 2^62 bytes, every receiver and every
+    budget above the length**: the regenerated decoder returns `nil` exactly when `ecDecode` decodes,
+    with the model's fields; `errUnexpectedCookieData` exactly when the model does; it never panics
+    and never runs out of budget (so neither does the model: the last two cases are impossible). -/
+theorem C14_leaf_EncryptedServerCookie_Decode (c0 : S_EncryptedServerCookie) (b : List UInt8) (fuel : Nat)
+    (hL : b.length < 4611686018427387904) (hf : b.length < fuel) :
+    match ecDecode (bytesN b) with
+    | .ok t => ∃ c', ntske_EncryptedServerCookie_Decode c0 b fuel = .ok (c', false) ∧
+        c'.ID.toNat = t.num ∧ bytesN c'.Nonce = t.x ∧ bytesN c'.Ciphertext = t.y
+    | .err _ => ∃ c', ntske_EncryptedServerCookie_Decode c0 b fuel = .ok (c', true)
+    | .panic _ => False
+    | .hang => False := by
+  have hBl : (bytesN b).length = b.length := by simp [bytesN]
+  have h := loop_tie ecView ecView_lawful 1025 1281 1537 b (fun s => Go.Out.ok (s.1, true)) hL
+    (b.length + 1) 0 (c0, false, false, false, (0 : Int64)) (by omega) (by omega) rfl
+  rw [← ecBody_eq, k1025, k1281, k1537] at h
+  have hacc : ecView.acc (c0, false, false, false, (0 : Int64)) = {} := rfl
+  rw [hacc, List.drop_zero] at h
+  rw [ec_pieces]
+  unfold ecDecode decodeTLV
+  rw [hBl]
+  obtain ⟨k, hk⟩ : ∃ k, fuel = (b.length + 1) + k := ⟨fuel - (b.length + 1), by omega⟩
+  cases hm : tlvLoop true cookieTypeKeyID cookieTypeNonce cookieTypeCiphertext (b.length + 1) (bytesN b) {} with
+  | ok st =>
+    rw [hm] at h
+    obtain ⟨⟨c, ciphertext, id, nonce, pos⟩, hrun, hst, hps⟩ := h
+    rw [hk, forFuel_mono _ _ k _ _ hrun]
+    have hp : pos = Go.len b := hps
+    simp only [ecView] at hst
+    subst hst
+    cases id <;> cases nonce <;> cases ciphertext <;> simp [hp]
+  | err e =>
+    rw [hm] at h
+    obtain ⟨s', hrun⟩ := h
+    rw [hk, forFuel_mono _ _ k _ _ hrun]
+    exact ⟨_, rfl⟩
+  | panic p => rw [hm] at h; exact h
+  | hang => rw [hm] at h; exact h
+
+/-- totality, as a statement about the regenerated code alone -/
+theorem C14_leaf_EncryptedServerCookie_Decode_total (c0 : S_EncryptedServerCookie) (b : List UInt8) (fuel : Nat)
+    (hL : b.length < 4611686018427387904) (hf : b.length < fuel) :
+    ∃ c' e, ntske_EncryptedServerCookie_Decode c0 b fuel = .ok (c', e) := by
+  have h := C14_leaf_EncryptedServerCookie_Decode c0 b fuel hL hf
+  cases hm : ecDecode (bytesN b) with
+  | ok t => rw [hm] at h; obtain ⟨c', h1, _⟩ := h; exact ⟨c', false, h1⟩
+  | err e => rw [hm] at h; obtain ⟨c', h1⟩ := h; exact ⟨c', true, h1⟩
+  | panic p => rw [hm] at h; exact h.elim
+  | hang => rw [hm] at h; exact h.elim
+
+/-- non-vacuity: (key id 7, nonce [9, 9], ciphertext [5]) decodes; a value length beyond the buffer is
+    an error, not a panic -/
+example : (match ntske_EncryptedServerCookie_Decode { ID := 0, Nonce := [], Ciphertext := [] }
+      [4, 1, 0, 2, 0, 7, 5, 1, 0, 2, 9, 9, 6, 1, 0, 1, 5] 18 with
+    | .ok (c, e) => some (c.ID, c.Nonce, c.Ciphertext, e) | _ => none) = some (7, [9, 9], [5], false) := by
+  decide +kernel
+example : (match ntske_EncryptedServerCookie_Decode { ID := 0, Nonce := [], Ciphertext := [] } [5, 1, 0, 9, 1] 6 with
+    | .ok (_, e) => some e | _ => none) = some true := by decide +kernel
+
 end ScionTime.LeafTieC14CookiesDec
